@@ -66,6 +66,8 @@ type RunResult struct {
 	SolverS    float64
 	WallS      float64
 	Asserts    int
+	AssertQ    int
+	NewBranches int
 	Fails      []Failure
 	Covers     map[string]bool
 	Funcs      map[string]bool
@@ -108,6 +110,7 @@ func (e *Engine) resetPath(dec []bool) {
 	e.curFn = e.curFn[:0]
 	e.outputs = 0
 	e.failSeq = 0
+	e.pending = e.pending[:0]
 	e.tracking = false
 	e.changed = false
 	e.realSeq = 0
@@ -145,8 +148,11 @@ func (e *Engine) runOnce(dec []bool, realSeq int) interface{} {
 	e.realSeq = realSeq
 	e.curFn = append(e.curFn, e.spec.fn)
 	out := e.protect(func() { e.call(e.spec.fn, nil) })
+	if out == nil {
+		out = e.protect(func() { e.flush() })
+	}
 	if pe, ok := out.(PanicEvt); ok {
-		out = e.protect(func() { e.failAt("panic", pe.Msg, pe.Site, "") })
+		out = e.protect(func() { e.flush(); e.failAt("panic", pe.Msg, pe.Site, "") })
 		if out == nil {
 			out = stopPath{} // known finding or dead path: the path ends at the panic either way
 		}
@@ -321,6 +327,8 @@ func explore(prog *ssa.Program, spec *RunSpec, nw int, known []KnownFinding, see
 			}
 			mu.Lock()
 			res.Asserts += we.asserts
+			res.AssertQ += we.assertQ
+			res.NewBranches += we.nbranch
 			res.Queries += we.solver.queries
 			res.SolverS += we.solver.dur.Seconds()
 			for f := range we.funcs {
